@@ -513,6 +513,8 @@ func runC16(r *an.Run) {
 				}
 			}
 		})
+
+	nullableByPresence(r, []string{"payments/db"}, 1, "the SQL store's guards decide admission, settlement and deletion from these columns; a failure reason of 0 (timeout) read as 'no reason' makes the guard path disagree with the loaded payment and with the KV store")
 }
 
 // definingCalls returns the callee IDs of all definitions of the local id
